@@ -75,6 +75,8 @@ func sameMatrix(a, b *gozxing.BitMatrix) bool {
 	return true
 }
 
+var readers = map[string]gozxing.Reader{}
+
 func main() {
 	hlib.Main(func(raw []byte) (interface{}, error) {
 		var e ev
@@ -94,7 +96,13 @@ func main() {
 			if e.Rd == "multi" {
 				rsym = "MULTI"
 			}
-			o := odr.Decode(odr.Reader(rsym), odr.Render(e.Runs, e.Q, e.Scale, e.H), nil)
+			// one reader object per symbology for the whole run: state a reader keeps between calls must not influence the next reading
+			rdr, ok := readers[rsym]
+			if !ok {
+				rdr = odr.Reader(rsym)
+				readers[rsym] = rdr
+			}
+			o := odr.Decode(rdr, odr.Render(e.Runs, e.Q, e.Scale, e.H), nil)
 			e.Text, e.Err, e.Orient, e.Ext, e.Fmt, e.Panic, e.Msg = o.Text, o.Err, o.Orient, o.Ext, o.Fmt, o.Panic, o.Msg
 		case "write":
 			p := hlib.Guard(func() {
